@@ -88,7 +88,38 @@ def direct_property(cfg, src, mode, quotes):
         on = guarded(m1.parse, src)
     except Exception as e:  # noqa: BLE001
         return {"what": f"the parse succeeds with the typographer off and raises {type(e).__name__} with it on"}
-    return compare_streams(off, on, mode, quotes)
+    d = compare_streams(off, on, mode, quotes)
+    if d:
+        return d
+    return quotes_history(onc, src, quotes)
+
+
+def quotes_history(onc, src, quotes):
+    """The quotes that are substituted are the ones configured NOW: an instance that has already
+    parsed with other quotes and then gets `quotes` by item assignment / update() / attribute must
+    produce exactly what a fresh instance configured with `quotes` produces."""
+    other = "«»‹›" if list(quotes)[:4] != list("«»‹›") else "„“‚‘"
+    fresh = configs.make_md(onc)
+    for route in ("item", "update", "attr"):
+        c0 = copy.deepcopy(onc)
+        c0["options"] = dict(c0["options"], quotes=other)
+        m = configs.make_md(c0)
+        try:
+            guarded(m.parse, "\"warm\" 'up' it's\n\n" + src)
+            if route == "item":
+                m.options["quotes"] = quotes
+            elif route == "update":
+                m.options.update({"quotes": quotes})
+            else:
+                m.options.quotes = quotes
+            a = guarded(m.parse, src)
+            b = guarded(fresh.parse, src)
+        except Exception:  # noqa: BLE001
+            return None
+        if [t.as_dict() for t in a] != [t.as_dict() for t in b]:
+            return {"what": f"quotes set through {route} after an earlier parse are not the ones substituted (fresh instance with the same options differs)",
+                    "route": route, "earlier_quotes": other}
+    return None
 
 
 def run(ctx) -> int:
